@@ -81,4 +81,30 @@ theorem ctx_calls_refused (s : St) (h : mctx s = none) :
       | true => exact absurd (String.isEmpty_iff.mp hne) hn
     simp [Refuses, apiRegister, h, this]
 
+
+/-- the state-mask test of a guarded call passes -/
+def maskOk (mask : Option (List MState)) (st : MState) : Prop :=
+  match mask with | some l => st ∈ l | none => True
+
+/-- all guards pass (token included): the call behaves as its body, started after the token was taken -/
+theorem guarded_pass_tok (s s' : St) (m : ModId) (md : Mod) (deny mask) (body : Prog Int)
+    (hm : s.mods[m]? = some md) (hma : modAssert s m = none) (hd : deny md.flags = false) (hmask : maskOk mask md.state)
+    (ht : consumeToken s m = some s') : runP (guarded m deny mask true body) s = runP body s' := by
+  unfold guarded
+  cases mask with
+  | none => simp [hma, hm, hd, ht]
+  | some l =>
+    have : md.state ∈ l := hmask
+    simp [hma, hm, hd, ht, this]
+
+theorem guarded_pass_notok (s : St) (m : ModId) (md : Mod) (deny mask) (body : Prog Int)
+    (hm : s.mods[m]? = some md) (hma : modAssert s m = none) (hd : deny md.flags = false) (hmask : maskOk mask md.state) :
+    runP (guarded m deny mask false body) s = runP body s := by
+  unfold guarded
+  cases mask with
+  | none => simp [hma, hm, hd]
+  | some l =>
+    have : md.state ∈ l := hmask
+    simp [hma, hm, hd, this]
+
 end Lm.Core
